@@ -31,53 +31,22 @@ def gen_cases(seed, tier, n):
             # sub-microsecond resolution: the file holds the case's times divided by 4 (exact binary fractions) and is loaded with
             # HTA_DISABLE_NS_ROUNDING=1, so the analysis sees fractional times; the ratio is scale invariant, the model runs on the
             # integer case
-            c["params"]["quarter_us"] = True
-            if c["epoch"] > 10 ** 12:
-                for rk in c["ranks"].values():
-                    for e in rk["events"]:
-                        if "ts" in e:
-                            e["ts"] -= c["epoch"]
-                c["epoch"] = 0
+            fw.set_quarter_us(c)
         out.append(c)
     return out
 
 
-def _quarter(case):
-    import copy
-    c = copy.deepcopy(case)
-    for rk in c["ranks"].values():
-        for e in rk["events"]:
-            for k in ("ts", "dur"):
-                if isinstance(e.get(k), int):
-                    e[k] = e[k] / 4.0
-    return c
-
-
 def run_impl(case, d):
-    import os
-    quarter = bool(case["params"].get("quarter_us"))
-    if quarter:
-        os.environ["HTA_DISABLE_NS_ROUNDING"] = "1"
-    try:
-        ta, paths = fw.load_case(_quarter(case) if quarter else case, d)
+    with fw.resolution(case):
+        ta, paths = fw.load_case_res(case, d)
         sym = ta.t.symbol_table.get_sym_table()
         ranks = sorted(ta.t.get_ranks())
-        frames = {}
-        for r in ranks:
-            df = ta.t.get_trace(r)
-            if quarter:
-                df = df.copy()
-                for k in ("ts", "dur", "end"):
-                    df[k] = df[k] * 4
-            frames[r] = fw.dump_frame(df, sym)
+        frames = {r: fw.dump_frame_res(case, ta.t.get_trace(r), sym) for r in ranks}
         try:
             df = ta.get_comm_comp_overlap(visualize=False)
             out = {int(rec["rank"]): float(rec["comp_comm_overlap_pctg"]) for rec in df.to_dict("records")}
         except Exception as e:
             out = {"error": type(e).__name__ + ": " + str(e)[:200]}
-    finally:
-        if quarter:
-            os.environ.pop("HTA_DISABLE_NS_ROUNDING", None)
     return {"frames": frames, "out": out}
 
 
